@@ -118,6 +118,42 @@ func Load(repoDir, verifDir string, patterns []string) (*Engine, error) {
 			}
 		}
 	}
+	// closed interfaces (unexported method): every implementer in the package joins the universe
+	for _, p := range prog.AllPackages() {
+		if !inRepo(p.Pkg) {
+			continue
+		}
+		scope := p.Pkg.Scope()
+		var ifaces []*types.Interface
+		for _, n := range scope.Names() {
+			if tn, ok := scope.Lookup(n).(*types.TypeName); ok {
+				if it, ok := tn.Type().Underlying().(*types.Interface); ok {
+					for i := 0; i < it.NumMethods(); i++ {
+						if !it.Method(i).Exported() {
+							ifaces = append(ifaces, it)
+							break
+						}
+					}
+				}
+			}
+		}
+		for _, it := range ifaces {
+			for _, n := range scope.Names() {
+				if tn, ok := scope.Lookup(n).(*types.TypeName); ok {
+					t := tn.Type()
+					if _, isI := t.Underlying().(*types.Interface); isI {
+						continue
+					}
+					if types.Implements(t, it) {
+						addU(t)
+					}
+					if pt := types.NewPointer(t); types.Implements(pt, it) && !types.Implements(t, it) {
+						addU(pt)
+					}
+				}
+			}
+		}
+	}
 	var keys []string
 	for k := range uni {
 		keys = append(keys, k)
